@@ -1,7 +1,7 @@
 (* C01 — Query results equal the declarative semantics of the query.
    Sem.v is the specification (what the query language defines); Exec.v is the transcription of
    execution.rs.  Only statements, `exact` proofs, Print Assumptions and examples live here. *)
-From TF Require Import Sem SemProofs Exec Run Sim SimRec SimComp SimOut SimTop.
+From TF Require Import Sem SemProofs Exec Run Sim SimRec SimComp SimOut SimTop FoldOut SimGen SimFull WfCheck RunHyps.
 Local Open Scope string_scope.
 
 (* ---- what the specification says, in the words of the language reference ---- *)
@@ -67,6 +67,51 @@ Theorem C01_recursion_rounds_are_dfs :
 Proof. intros g o r ep co e H k first c v. exact (dfs g o r ep co e H k first c v). Qed.
 Print Assumptions C01_recursion_rounds_are_dfs.
 
+(* ---- the engine model refines the specification: EVERY query ----
+   Any nesting of plain / @optional / @recurse edges and @fold scopes: outputs inside folds (lists,
+   lists of lists ...), count outputs, tags imported into folds (property and count tags), count
+   filters with variables or tags including the maximum early termination.  Side conditions on the
+   query (all guaranteed by the frontend, C11, except the last):
+     wf_comp  recursion depths >= 1; the tags a fold imports are not already imported by an enclosing
+              fold; NO FOLD IS ELIGIBLE FOR THE MINIMUM TRUNCATION take(min) (a `>`/`>=` count filter on a
+              fold whose count and contents the engine believes unobserved) - that optimisation is not
+              invisible (genuine defect F9, property C22);
+     wf_out   output keys (fold eid, name) and fold eids pairwise distinct at every level;
+     NoDup    output names globally distinct.
+   spec_hyps is their executable conjunction (WfCheck.v); the harness evaluates it on every world. *)
+Theorem C01_engine_refines_spec :
+  forall re g args q rows,
+    ty_indep g ->
+    wf_comp args [] (q_comp q) -> wf_out (q_comp q) -> NoDup (all_output_names (q_comp q)) ->
+    interpret re g args q = Ok rows ->
+    Forall2 row_equiv rows (sem re g args q).
+Proof. intros re g args q rows Hi. exact (interpret_spec re g args Hi q rows). Qed.
+Print Assumptions C01_engine_refines_spec.
+
+Theorem C01_engine_refines_spec_checked :
+  forall re g args q rows,
+    ty_indep g -> spec_hyps args q = true ->
+    interpret re g args q = Ok rows ->
+    Forall2 row_equiv rows (sem re g args q).
+Proof.
+  intros re g args q rows Hi Hh. destruct (spec_hyps_sound args q Hh) as (H1 & H2 & H3).
+  exact (interpret_spec re g args Hi q rows H1 H2 H3).
+Qed.
+Print Assumptions C01_engine_refines_spec_checked.
+
+(* component level (any imported tags, any starting contexts): assignments AND the fold-output
+   bookkeeping (FV: the folded_values map is, key by key, the closed form fspec of the projection) *)
+Theorem C01_component_refines_spec :
+  forall re g args, ty_indep g ->
+  forall c outer imp cs r,
+    wf_comp args outer c -> wf_out c -> keys_within outer imp ->
+    Forall (clean imp) cs -> Forall fresh cs ->
+    compute_component re g args c cs = Ok r ->
+    map asg_of r = flat_map (fun x => sem_comp re g args c imp (active x)) cs /\
+    Forall (FV g c) r /\ Forall (clean imp) r.
+Proof. intros re g args Hi. exact (compute_component_full re g args Hi). Qed.
+Print Assumptions C01_component_refines_spec.
+
 Theorem C01_datasets_are_type_independent : forall d, ty_indep (graph_of_dataset d).
 Proof. exact graph_of_dataset_ty_indep. Qed.
 Print Assumptions C01_datasets_are_type_independent.
@@ -88,8 +133,27 @@ Print Assumptions C01_fold_free_nonvacuous.
 
 (* non-vacuity / agreement on a concrete non-trivial world: fold-count filter against a tag, nested
    folds, @recurse(depth: 2) through a coercion, @optional, parameterised edges *)
+Definition aw_re := (re_table [] []).
+Definition aw_d := (mkDS [(1%N, "Box"); (2%N, "Gadget"); (3%N, "Box"); (4%N, "Leaf"); (5%N, "Gadget"); (6%N, "Box"); (7%N, "Box")] [(1%N, [("flag", (Boolv true)); ("id", (U64 1%Z)); ("label", (Str "abc")); ("nums", (List [Null; (I64 9223372036854775807%Z)])); ("ratio", (F64 4609434218613702656%N)); ("score", (U64 18446744073709551615%Z)); ("tags", (List [(Str ""); (Str "ab"); (Str "")])); ("weight", (I64 (-3)%Z))]); (2%N, [("flag", (Boolv false)); ("id", (I64 2%Z)); ("nums", (List [Null; Null])); ("power", (U64 9223372036854775808%Z)); ("ratio", (F64 13832806255468478464%N)); ("score", (I64 3%Z))]); (3%N, [("capacity", (U64 9223372036854775808%Z)); ("flag", (Boolv true)); ("id", (I64 3%Z)); ("label", (Str "x y")); ("name", (Str "a(")); ("nums", (List [])); ("ratio", (F64 1%N)); ("tags", (List [(Str "ba"); (Str "A"); (Str "ba")])); ("weight", (U64 4%Z))]); (4%N, [("flag", (Boolv true)); ("id", (I64 4%Z)); ("label", (Str "A")); ("leafy", (Str "a")); ("name", (Str "ab")); ("nums", (List [Null])); ("ratio", (F64 0%N)); ("score", (I64 9223372036854775807%Z)); ("tags", (List [(Str "ba"); (Str "ba"); (Str "x y")])); ("weight", (I64 0%Z))]); (5%N, [("flag", (Boolv true)); ("id", (I64 5%Z)); ("name", (Str "A")); ("nums", (List [(I64 3%Z); (I64 6%Z)])); ("power", (I64 6%Z)); ("score", (I64 0%Z))]); (6%N, [("capacity", (U64 18446744073709551615%Z)); ("flag", (Boolv false)); ("id", (U64 6%Z)); ("label", (Str (sb [195;169]%N))); ("name", (Str (sb [195;169]%N))); ("nums", (List [Null; Null; (I64 (-2)%Z)])); ("ratio", (F64 9223372036854775808%N)); ("tags", (List [(Str "a"); (Str ""); (Str "ab")])); ("weight", (I64 (-3)%Z))]); (7%N, [("capacity", (U64 18446744073709551615%Z)); ("flag", (Boolv false)); ("id", (U64 7%Z)); ("label", (Str "a")); ("nums", (List [(I64 1%Z)])); ("ratio", (F64 4611686018427387904%N)); ("score", (I64 (-9223372036854775808)%Z)); ("tags", (List [])); ("weight", (U64 2%Z))])] [(1%N, [("inner", [6%N]); ("link", [5%N; 2%N]); ("next", [2%N; 2%N; 5%N]); ("parent", [6%N]); ("peer", [3%N]); ("up", [6%N])]); (2%N, [("gears", [2%N; 2%N]); ("link", [6%N]); ("next", [4%N; 1%N; 3%N])]); (3%N, [("inner", [1%N; 6%N; 3%N]); ("next", [1%N; 3%N]); ("peer", [7%N; 7%N])]); (4%N, [("next", [7%N]); ("peer", [3%N]); ("up", [3%N; 2%N; 7%N])]); (5%N, [("gears", [2%N; 5%N]); ("link", [5%N; 3%N]); ("parent", [6%N])]); (6%N, [("contains", [6%N; 6%N; 7%N]); ("peer", [1%N; 1%N; 3%N; 6%N]); ("up", [3%N])]); (7%N, [("contains", [7%N; 1%N; 3%N]); ("inner", [6%N]); ("next", [3%N; 7%N; 2%N]); ("parent", [3%N]); ("peer", [7%N; 1%N]); ("up", [4%N; 3%N; 5%N; 3%N])])] [("Box", [1%N; 3%N; 6%N; 7%N]); ("Gadget", [2%N; 5%N]); ("Item", [7%N; 6%N; 4%N; 3%N; 1%N; 4%N]); ("Leaf", [4%N]); ("Thing", [1%N; 2%N; 3%N; 4%N; 5%N; 6%N; 7%N; 5%N])] [("Thing", ["Box"; "Leaf"; "Gadget"]); ("Item", ["Box"; "Leaf"]); ("Box", ["Box"]); ("Leaf", ["Leaf"]); ("Gadget", ["Gadget"])]).
+Definition aw_rq := (mkRQ "Item" [("hi", Null); ("lo", Null)] (RComp 1%N [(mkV 1%N "Item" None [])] [] [(RFold (mkFH 1%N 1%N 2%N "link" [] [] [] [(mkPF LessThanOrEqual (Some (ATag (FRContext (mkCF 1%N "score" (mkTy "Int" 0%N))))))]) (RComp 2%N [(mkV 2%N "Thing" None [])] [] [(RFold (mkFH 2%N 2%N 3%N "link" [] [] [] []) (RComp 3%N [(mkV 3%N "Thing" None []); (mkV 4%N "Item" (Some "Thing") [(mkVF Equals "nums" (mkTy "Int" 3%N) (Some (AVar "v1" (mkTy "Int" 3%N))))]); (mkV 6%N "Thing" None [])] [(mkE 3%N 3%N 4%N "parent" [] false (Some (mkRec 2%N None))); (mkE 5%N 4%N 6%N "link" [] true None)] [(RFold (mkFH 4%N 4%N 5%N "next" [("hi", (I64 1000%Z)); ("lo", (I64 1%Z))] [] [] []) (RComp 5%N [(mkV 5%N "Thing" None [(mkVF OneOf "tags" (mkTy "String" 6%N) (Some (AVar "v3" (mkTy "String" 27%N)))); (mkVF NotOneOf "tags" (mkTy "String" 6%N) (Some (AVar "v2" (mkTy "String" 27%N))))])] [] [] [("o8", (mkCF 5%N "tags" (mkTy "String" 6%N)))]))] [("o10", (mkCF 6%N "nums" (mkTy "Int" 3%N))); ("o3", (mkCF 3%N "tags" (mkTy "String" 6%N))); ("o4", (mkCF 3%N "score" (mkTy "Int" 0%N))); ("o5", (mkCF 4%N "__typename" (mkTy "String" 1%N))); ("o6", (mkCF 4%N "nums" (mkTy "Int" 3%N))); ("o7", (mkCF 4%N "ratio" (mkTy "Float" 0%N))); ("o9", (mkCF 6%N "score" (mkTy "Int" 0%N)))]))] [("o2", (mkCF 2%N "name" (mkTy "String" 0%N)))]))] [("o1", (mkCF 1%N "tags" (mkTy "String" 6%N)))]) [("v1", (mkTy "Int" 3%N)); ("v2", (mkTy "String" 27%N)); ("v3", (mkTy "String" 27%N))]).
+Definition aw_args := [("v1", (List [])); ("v2", (List [(List []); (List [(Str "ab")])])); ("v3", (List [(List [])]))].
 Example C01_agreement_witness :
-  let r := run_exec (re_table [] []) (mkDS [(1%N, "Box"); (2%N, "Gadget"); (3%N, "Box"); (4%N, "Leaf"); (5%N, "Gadget"); (6%N, "Box"); (7%N, "Box")] [(1%N, [("flag", (Boolv true)); ("id", (U64 1%Z)); ("label", (Str "abc")); ("nums", (List [Null; (I64 9223372036854775807%Z)])); ("ratio", (F64 4609434218613702656%N)); ("score", (U64 18446744073709551615%Z)); ("tags", (List [(Str ""); (Str "ab"); (Str "")])); ("weight", (I64 (-3)%Z))]); (2%N, [("flag", (Boolv false)); ("id", (I64 2%Z)); ("nums", (List [Null; Null])); ("power", (U64 9223372036854775808%Z)); ("ratio", (F64 13832806255468478464%N)); ("score", (I64 3%Z))]); (3%N, [("capacity", (U64 9223372036854775808%Z)); ("flag", (Boolv true)); ("id", (I64 3%Z)); ("label", (Str "x y")); ("name", (Str "a(")); ("nums", (List [])); ("ratio", (F64 1%N)); ("tags", (List [(Str "ba"); (Str "A"); (Str "ba")])); ("weight", (U64 4%Z))]); (4%N, [("flag", (Boolv true)); ("id", (I64 4%Z)); ("label", (Str "A")); ("leafy", (Str "a")); ("name", (Str "ab")); ("nums", (List [Null])); ("ratio", (F64 0%N)); ("score", (I64 9223372036854775807%Z)); ("tags", (List [(Str "ba"); (Str "ba"); (Str "x y")])); ("weight", (I64 0%Z))]); (5%N, [("flag", (Boolv true)); ("id", (I64 5%Z)); ("name", (Str "A")); ("nums", (List [(I64 3%Z); (I64 6%Z)])); ("power", (I64 6%Z)); ("score", (I64 0%Z))]); (6%N, [("capacity", (U64 18446744073709551615%Z)); ("flag", (Boolv false)); ("id", (U64 6%Z)); ("label", (Str (sb [195;169]%N))); ("name", (Str (sb [195;169]%N))); ("nums", (List [Null; Null; (I64 (-2)%Z)])); ("ratio", (F64 9223372036854775808%N)); ("tags", (List [(Str "a"); (Str ""); (Str "ab")])); ("weight", (I64 (-3)%Z))]); (7%N, [("capacity", (U64 18446744073709551615%Z)); ("flag", (Boolv false)); ("id", (U64 7%Z)); ("label", (Str "a")); ("nums", (List [(I64 1%Z)])); ("ratio", (F64 4611686018427387904%N)); ("score", (I64 (-9223372036854775808)%Z)); ("tags", (List [])); ("weight", (U64 2%Z))])] [(1%N, [("inner", [6%N]); ("link", [5%N; 2%N]); ("next", [2%N; 2%N; 5%N]); ("parent", [6%N]); ("peer", [3%N]); ("up", [6%N])]); (2%N, [("gears", [2%N; 2%N]); ("link", [6%N]); ("next", [4%N; 1%N; 3%N])]); (3%N, [("inner", [1%N; 6%N; 3%N]); ("next", [1%N; 3%N]); ("peer", [7%N; 7%N])]); (4%N, [("next", [7%N]); ("peer", [3%N]); ("up", [3%N; 2%N; 7%N])]); (5%N, [("gears", [2%N; 5%N]); ("link", [5%N; 3%N]); ("parent", [6%N])]); (6%N, [("contains", [6%N; 6%N; 7%N]); ("peer", [1%N; 1%N; 3%N; 6%N]); ("up", [3%N])]); (7%N, [("contains", [7%N; 1%N; 3%N]); ("inner", [6%N]); ("next", [3%N; 7%N; 2%N]); ("parent", [3%N]); ("peer", [7%N; 1%N]); ("up", [4%N; 3%N; 5%N; 3%N])])] [("Box", [1%N; 3%N; 6%N; 7%N]); ("Gadget", [2%N; 5%N]); ("Item", [7%N; 6%N; 4%N; 3%N; 1%N; 4%N]); ("Leaf", [4%N]); ("Thing", [1%N; 2%N; 3%N; 4%N; 5%N; 6%N; 7%N; 5%N])] [("Thing", ["Box"; "Leaf"; "Gadget"]); ("Item", ["Box"; "Leaf"]); ("Box", ["Box"]); ("Leaf", ["Leaf"]); ("Gadget", ["Gadget"])]) (mkRQ "Item" [("hi", Null); ("lo", Null)] (RComp 1%N [(mkV 1%N "Item" None [])] [] [(RFold (mkFH 1%N 1%N 2%N "link" [] [] [] [(mkPF LessThanOrEqual (Some (ATag (FRContext (mkCF 1%N "score" (mkTy "Int" 0%N))))))]) (RComp 2%N [(mkV 2%N "Thing" None [])] [] [(RFold (mkFH 2%N 2%N 3%N "link" [] [] [] []) (RComp 3%N [(mkV 3%N "Thing" None []); (mkV 4%N "Item" (Some "Thing") [(mkVF Equals "nums" (mkTy "Int" 3%N) (Some (AVar "v1" (mkTy "Int" 3%N))))]); (mkV 6%N "Thing" None [])] [(mkE 3%N 3%N 4%N "parent" [] false (Some (mkRec 2%N None))); (mkE 5%N 4%N 6%N "link" [] true None)] [(RFold (mkFH 4%N 4%N 5%N "next" [("hi", (I64 1000%Z)); ("lo", (I64 1%Z))] [] [] []) (RComp 5%N [(mkV 5%N "Thing" None [(mkVF OneOf "tags" (mkTy "String" 6%N) (Some (AVar "v3" (mkTy "String" 27%N)))); (mkVF NotOneOf "tags" (mkTy "String" 6%N) (Some (AVar "v2" (mkTy "String" 27%N))))])] [] [] [("o8", (mkCF 5%N "tags" (mkTy "String" 6%N)))]))] [("o10", (mkCF 6%N "nums" (mkTy "Int" 3%N))); ("o3", (mkCF 3%N "tags" (mkTy "String" 6%N))); ("o4", (mkCF 3%N "score" (mkTy "Int" 0%N))); ("o5", (mkCF 4%N "__typename" (mkTy "String" 1%N))); ("o6", (mkCF 4%N "nums" (mkTy "Int" 3%N))); ("o7", (mkCF 4%N "ratio" (mkTy "Float" 0%N))); ("o9", (mkCF 6%N "score" (mkTy "Int" 0%N)))]))] [("o2", (mkCF 2%N "name" (mkTy "String" 0%N)))]))] [("o1", (mkCF 1%N "tags" (mkTy "String" 6%N)))]) [("v1", (mkTy "Int" 3%N)); ("v2", (mkTy "String" 27%N)); ("v3", (mkTy "String" 27%N))]) [("v1", (List [])); ("v2", (List [(List []); (List [(Str "ab")])])); ("v3", (List [(List [])]))] in
-  r = run_sem (re_table [] []) (mkDS [(1%N, "Box"); (2%N, "Gadget"); (3%N, "Box"); (4%N, "Leaf"); (5%N, "Gadget"); (6%N, "Box"); (7%N, "Box")] [(1%N, [("flag", (Boolv true)); ("id", (U64 1%Z)); ("label", (Str "abc")); ("nums", (List [Null; (I64 9223372036854775807%Z)])); ("ratio", (F64 4609434218613702656%N)); ("score", (U64 18446744073709551615%Z)); ("tags", (List [(Str ""); (Str "ab"); (Str "")])); ("weight", (I64 (-3)%Z))]); (2%N, [("flag", (Boolv false)); ("id", (I64 2%Z)); ("nums", (List [Null; Null])); ("power", (U64 9223372036854775808%Z)); ("ratio", (F64 13832806255468478464%N)); ("score", (I64 3%Z))]); (3%N, [("capacity", (U64 9223372036854775808%Z)); ("flag", (Boolv true)); ("id", (I64 3%Z)); ("label", (Str "x y")); ("name", (Str "a(")); ("nums", (List [])); ("ratio", (F64 1%N)); ("tags", (List [(Str "ba"); (Str "A"); (Str "ba")])); ("weight", (U64 4%Z))]); (4%N, [("flag", (Boolv true)); ("id", (I64 4%Z)); ("label", (Str "A")); ("leafy", (Str "a")); ("name", (Str "ab")); ("nums", (List [Null])); ("ratio", (F64 0%N)); ("score", (I64 9223372036854775807%Z)); ("tags", (List [(Str "ba"); (Str "ba"); (Str "x y")])); ("weight", (I64 0%Z))]); (5%N, [("flag", (Boolv true)); ("id", (I64 5%Z)); ("name", (Str "A")); ("nums", (List [(I64 3%Z); (I64 6%Z)])); ("power", (I64 6%Z)); ("score", (I64 0%Z))]); (6%N, [("capacity", (U64 18446744073709551615%Z)); ("flag", (Boolv false)); ("id", (U64 6%Z)); ("label", (Str (sb [195;169]%N))); ("name", (Str (sb [195;169]%N))); ("nums", (List [Null; Null; (I64 (-2)%Z)])); ("ratio", (F64 9223372036854775808%N)); ("tags", (List [(Str "a"); (Str ""); (Str "ab")])); ("weight", (I64 (-3)%Z))]); (7%N, [("capacity", (U64 18446744073709551615%Z)); ("flag", (Boolv false)); ("id", (U64 7%Z)); ("label", (Str "a")); ("nums", (List [(I64 1%Z)])); ("ratio", (F64 4611686018427387904%N)); ("score", (I64 (-9223372036854775808)%Z)); ("tags", (List [])); ("weight", (U64 2%Z))])] [(1%N, [("inner", [6%N]); ("link", [5%N; 2%N]); ("next", [2%N; 2%N; 5%N]); ("parent", [6%N]); ("peer", [3%N]); ("up", [6%N])]); (2%N, [("gears", [2%N; 2%N]); ("link", [6%N]); ("next", [4%N; 1%N; 3%N])]); (3%N, [("inner", [1%N; 6%N; 3%N]); ("next", [1%N; 3%N]); ("peer", [7%N; 7%N])]); (4%N, [("next", [7%N]); ("peer", [3%N]); ("up", [3%N; 2%N; 7%N])]); (5%N, [("gears", [2%N; 5%N]); ("link", [5%N; 3%N]); ("parent", [6%N])]); (6%N, [("contains", [6%N; 6%N; 7%N]); ("peer", [1%N; 1%N; 3%N; 6%N]); ("up", [3%N])]); (7%N, [("contains", [7%N; 1%N; 3%N]); ("inner", [6%N]); ("next", [3%N; 7%N; 2%N]); ("parent", [3%N]); ("peer", [7%N; 1%N]); ("up", [4%N; 3%N; 5%N; 3%N])])] [("Box", [1%N; 3%N; 6%N; 7%N]); ("Gadget", [2%N; 5%N]); ("Item", [7%N; 6%N; 4%N; 3%N; 1%N; 4%N]); ("Leaf", [4%N]); ("Thing", [1%N; 2%N; 3%N; 4%N; 5%N; 6%N; 7%N; 5%N])] [("Thing", ["Box"; "Leaf"; "Gadget"]); ("Item", ["Box"; "Leaf"]); ("Box", ["Box"]); ("Leaf", ["Leaf"]); ("Gadget", ["Gadget"])]) (mkRQ "Item" [("hi", Null); ("lo", Null)] (RComp 1%N [(mkV 1%N "Item" None [])] [] [(RFold (mkFH 1%N 1%N 2%N "link" [] [] [] [(mkPF LessThanOrEqual (Some (ATag (FRContext (mkCF 1%N "score" (mkTy "Int" 0%N))))))]) (RComp 2%N [(mkV 2%N "Thing" None [])] [] [(RFold (mkFH 2%N 2%N 3%N "link" [] [] [] []) (RComp 3%N [(mkV 3%N "Thing" None []); (mkV 4%N "Item" (Some "Thing") [(mkVF Equals "nums" (mkTy "Int" 3%N) (Some (AVar "v1" (mkTy "Int" 3%N))))]); (mkV 6%N "Thing" None [])] [(mkE 3%N 3%N 4%N "parent" [] false (Some (mkRec 2%N None))); (mkE 5%N 4%N 6%N "link" [] true None)] [(RFold (mkFH 4%N 4%N 5%N "next" [("hi", (I64 1000%Z)); ("lo", (I64 1%Z))] [] [] []) (RComp 5%N [(mkV 5%N "Thing" None [(mkVF OneOf "tags" (mkTy "String" 6%N) (Some (AVar "v3" (mkTy "String" 27%N)))); (mkVF NotOneOf "tags" (mkTy "String" 6%N) (Some (AVar "v2" (mkTy "String" 27%N))))])] [] [] [("o8", (mkCF 5%N "tags" (mkTy "String" 6%N)))]))] [("o10", (mkCF 6%N "nums" (mkTy "Int" 3%N))); ("o3", (mkCF 3%N "tags" (mkTy "String" 6%N))); ("o4", (mkCF 3%N "score" (mkTy "Int" 0%N))); ("o5", (mkCF 4%N "__typename" (mkTy "String" 1%N))); ("o6", (mkCF 4%N "nums" (mkTy "Int" 3%N))); ("o7", (mkCF 4%N "ratio" (mkTy "Float" 0%N))); ("o9", (mkCF 6%N "score" (mkTy "Int" 0%N)))]))] [("o2", (mkCF 2%N "name" (mkTy "String" 0%N)))]))] [("o1", (mkCF 1%N "tags" (mkTy "String" 6%N)))]) [("v1", (mkTy "Int" 3%N)); ("v2", (mkTy "String" 27%N)); ("v3", (mkTy "String" 27%N))]) [("v1", (List [])); ("v2", (List [(List []); (List [(Str "ab")])])); ("v3", (List [(List [])]))] /\ Nat.ltb 300 (String.length r) = true.
+  let r := run_exec aw_re aw_d aw_rq aw_args in
+  r = run_sem aw_re aw_d aw_rq aw_args /\ Nat.ltb 300 (String.length r) = true.
 Proof. vm_compute. split; reflexivity. Qed.
 Print Assumptions C01_agreement_witness.
+
+(* non-vacuity of the whole-query theorem: the witness world above (count filter against a tag, three
+   nested folds with outputs at every level, @recurse(depth: 2) through a coercion, @optional) meets
+   every hypothesis, and the interpreter model returns rows on it *)
+Example C01_engine_refines_spec_nonvacuous :
+  match lower_query aw_rq with
+  | Ok q => spec_hyps aw_args q = true /\
+            match interpret aw_re (graph_of_dataset aw_d) aw_args q with
+            | Ok rows => Nat.ltb 1 (List.length rows) = true
+            | Panic _ => False
+            end
+  | Panic _ => False
+  end.
+Proof. vm_compute. split; reflexivity. Qed.
+Print Assumptions C01_engine_refines_spec_nonvacuous.
